@@ -611,6 +611,45 @@ fn cram_roundtrip(tier: &str) -> Result<String, String> {
         let _ = std::fs::remove_file(&path);
         match r { Err(_) => { fails.entry("query panic".into()).or_insert_with(|| "cram index+query: PANICS".into()); } Ok(Err(e)) => { fails.entry(format!("query {}", &e[..e.len().min(24)])).or_insert_with(|| format!("cram index+query: {e}")); } Ok(Ok(_)) => {} }
     } else { fails.entry("no default file".into()).or_insert_with(|| "cram round trip: the default configuration did not produce a file for the container/index checks".into()); }
+    // ---- a multi-reference slice that cram::fs::index can decode without a reference (deletion-only reads; see F8): one CRAI entry
+    // per reference with the true span, and queries through it ----
+    {
+        let mut multi: Vec<String> = Vec::new();
+        for (name, r, pos, cig) in [("d.1", "sq0", 100usize, "300D"), ("d.2", "sq0", 150, "20D"), ("d.3", "sq0", 380, "30D"), ("d.4", "sq1", 50, "100D"), ("d.5", "sq1", 60, "10D"), ("d.6", "sq1", 400, "5D")] { multi.push(format!("{name}\t0\t{r}\t{pos}\t30\t{cig}\t*\t0\t0\t*\t*\n")); }
+        multi.push(format!("u.1\t4\t*\t0\t0\t*\t*\t0\t0\tACGTACGT\t{}\n", qual(8, 1)));
+        multi.push(format!("u.2\t4\t*\t0\t0\t*\t*\t0\t0\tGGGG\t{}\n", qual(4, 2)));
+        let path = std::env::temp_dir().join(format!("verif-native-{}-multi.cram", std::process::id()));
+        let r = std::panic::catch_unwind(std::panic::AssertUnwindSafe(|| -> Result<(), String> {
+            let recs = parse(&multi)?;
+            let data = write(&recs, true, None).map_err(|e| format!("the writer fails ({e})"))?;
+            let back = read(&data).map_err(|e| format!("the reader fails on the writer's output ({e})"))?;
+            if back.len() != recs.len() { return Err(format!("{} records read back, {} written", back.len(), recs.len())); }
+            std::fs::write(&path, &data).map_err(|e| format!("tmp file: {e}"))?;
+            let index = noodles_cram::fs::index(&path).map_err(|e| format!("cram::fs::index fails ({e})"))?;
+            // expected entries: one per reference present (and one for the unplaced reads), with the span of its records
+            for (rid, name) in [(0usize, "sq0"), (1, "sq1")] {
+                let (mut lo, mut hi) = (usize::MAX, 0usize);
+                for r in recs.iter().filter(|r| r.reference_sequence_id() == Some(rid)) { lo = lo.min(usize::from(r.alignment_start().unwrap())); hi = hi.max(usize::from(r.alignment_end().unwrap())); }
+                let es: Vec<_> = index.iter().filter(|e| e.reference_sequence_id() == Some(rid)).collect();
+                if es.len() != 1 { return Err(format!("the index has {} entries for {name}, expected 1 (multi-reference slice)", es.len())); }
+                let (s, span) = (es[0].alignment_start().map(usize::from), es[0].alignment_span());
+                if s != Some(lo) || span != hi - lo + 1 { return Err(format!("the index entry of {name} covers start {s:?} span {span}; its records cover start {lo} span {}", hi - lo + 1)); }
+            }
+            if index.iter().filter(|e| e.reference_sequence_id().is_none()).count() != 1 { return Err("the index has no single entry for the unplaced reads of the multi-reference slice".into()); }
+            for region in ["sq0", "sq0:120-130", "sq0:390-395", "sq1", "sq1:55-58", "sq1:1-49"] {
+                let region: noodles_core::Region = region.parse().map_err(|e| format!("region: {e}"))?;
+                let rid = header.reference_sequences().get_index_of(region.name()).unwrap();
+                let expected: Vec<String> = recs.iter().filter(|r| r.reference_sequence_id() == Some(rid) && match (r.alignment_start(), r.alignment_end()) { (Some(s), Some(e)) => region.interval().intersects((s..=e).into()), _ => false }).map(|r| format!("{:?}", r.name().map(|n| n.to_string()))).collect();
+                let mut rd = noodles_cram::io::reader::Builder::default().set_reference_sequence_repository(repo.clone()).build_from_path(&path).map_err(|e| format!("open: {e}"))?;
+                let h = rd.read_header().map_err(|e| format!("read_header: {e}"))?;
+                let got: Vec<String> = rd.query(&h, &index, &region).map_err(|e| format!("query: {e}"))?.records().map(|r| r.map(|r| format!("{:?}", r.name().map(|n| n.to_string())))).collect::<Result<_, _>>().map_err(|e| format!("query record: {e}"))?;
+                if got != expected { return Err(format!("query {region} on the multi-reference slice returns {got:?}, a scan keeps {expected:?}")); }
+            }
+            Ok(())
+        }));
+        let _ = std::fs::remove_file(&path);
+        match r { Err(_) => { fails.entry("multi panic".into()).or_insert_with(|| format!("cram multi-reference slice index+query: PANICS at {}", PANIC_LOC.lock().unwrap())); } Ok(Err(e)) => { fails.entry(format!("multi {}", &e[..e.len().min(40)])).or_insert_with(|| format!("cram multi-reference slice index+query: {e}")); } Ok(Ok(())) => {} }
+    }
     let _ = std::panic::take_hook();
     if fails.is_empty() { Ok(format!("\"configurations_x_record_sets\":{cases},\"records\":{}", small_recs.len() + big_recs.len())) }
     else { Err(format!("FAILURES\n{}", fails.values().cloned().collect::<Vec<_>>().join("\n"))) }
